@@ -86,11 +86,24 @@ class C02(Prop):
                     head = G.gen_text(r, maxlines=3).rstrip(b"\n") or b"alpha"
                     v0 = head + b"\n" + r.choice([b"--- ", b" ---", b"---\t", b"\t---", b"  ---  "]) + b"\n" + r.choice([b"beta", b"tail\nmore", b""])
                     v1 = head
+                if api == "snap" and r.chance(1, 10):
+                    # the received text differs from the stored one ONLY by a carriage return at the end of one line - a
+                    # terminator line, an escape-token line or an ordinary one. (The stored side is CR-free, so the documented
+                    # limitation - the reader drops a CR at the end of a STORED line - is not involved.)
+                    head = G.gen_text(r, maxlines=2).rstrip(b"\n") or b"title: a"
+                    mid = r.choice([b"---", b"---", b"/-/-/-/", b"plain line", b""])
+                    tail = r.choice([b"body", b"", b"x\ny"])
+                    v0 = head + b"\n" + mid + b"\n" + tail
+                    v1 = head + b"\n" + mid + b"\r\n" + tail
                 a = G.op_match_snap(0, test, [v0]) if api == "snap" else G.op_match_doc("stand", 0, test, v0)
                 b = G.op_match_snap(0, test, [v1]) if api == "snap" else G.op_match_doc("stand", 0, test, v1)
             elif api == "yaml":
                 docs = r.shuffle(G.YAML_DOCS)
                 v0, v1 = docs[0], (docs[0] + b"\n" if r.chance(1, 3) else docs[1])
+                if r.chance(1, 8):
+                    # a document separator with and without a carriage return (stored side CR-free)
+                    v0 = r.choice([b"a: 1\n---\nb: 2\n", b"---\na: 1\n", b"a: 1\n---\n---\nb: 2\n"])
+                    v1 = v0.replace(b"---\n", b"---\r\n", 1)
                 a, b = G.op_match_doc("yaml", 0, test, v0), G.op_match_doc("yaml", 0, test, v1)
             else:
                 docs = r.shuffle(G.JSON_DOCS)
